@@ -1065,7 +1065,12 @@ where
                     BoxBody::new(()),
                 );
 
-                self.project().flags.insert(Flags::SHUTDOWN);
+                let this = self.project();
+                this.flags.insert(Flags::SHUTDOWN);
+
+                // the timer has done its job; left active it would be ready on every later poll
+                // and queue another 408 each time
+                this.head_timer.clear(line!());
             }
         };
 
